@@ -228,7 +228,7 @@ pub fn run(rep: &Report) {
     rep.set_rule(
         "complete matrix: 14 binary + 2 prefix operators (+ the doubled prefix forms `--a`, `!!a`) x (pool x pool) operands of every type, each evaluated with \
          operands bound as variables and, where expressible, written as literals; reference = i128 / f64 table; value \
-         bit-exact or error of the same class. Plus random operand pairs biased to overflow boundaries. Non-trivial: \
+         bit-exact or error of the same class. Plus strings of every length 0..=70 (prefixes of one another / last character changed) under the ordering, equality and `+` operators, wide tuples (1..400 scalar or sub-tuple elements, equal or differing at one late position) under == and !=, and random operand pairs biased to overflow boundaries. Non-trivial: \
          both operands of a type the operator accepts (distinct by operator and operand values), or a (type, type) \
          pair not yet seen for that operator.",
     );
@@ -275,6 +275,67 @@ pub fn run(rep: &Report) {
     }
     rep.add_extra("operator_type_pairs_covered", json!(tt.len()));
     rep.add_extra("operator_type_pair_counts", json!(tt));
+    // long operands: strings of every length 0..=70 that are prefixes of one another or differ in
+    // their last character (block-wise comparison / concatenation fast paths), and wide tuples
+    // (n elements, scalar or sub-tuple) that are equal or differ at one late position
+    let base: Vec<char> = "abcdefghijklmnopqrstuvwxyzäöüß0123456789ABCDEFGHIJKLMNOPQRSTUVWXYZ€日本語-_.:,;#+*~".chars().collect();
+    let str_of = |len: usize, variant: u64| -> RV {
+        let mut v: Vec<char> = (0..len).map(|k| base[k % base.len()]).collect();
+        if len > 0 {
+            match variant {
+                1 => *v.last_mut().unwrap() = '!',
+                2 => *v.last_mut().unwrap() = '~',
+                _ => {},
+            }
+        }
+        RV::Str(v.into_iter().collect())
+    };
+    let string_ops: Vec<usize> = (0..14).filter(|op| matches!(BinOp::ALL[*op].sym(), "<" | "<=" | ">" | ">=" | "==" | "!=" | "+")).collect();
+    let nl = 71u64;
+    common::enumerate(rep, "long-strings", nl * nl * 3 * string_ops.len() as u64, 64, &|i, l| {
+        let op = string_ops[(i % string_ops.len() as u64) as usize];
+        let r = i / string_ops.len() as u64;
+        let (la, lb, variant) = ((r % nl) as usize, ((r / nl) % nl) as usize, r / (nl * nl));
+        let (a, b) = (str_of(la, 0), str_of(lb, variant));
+        if la >= 16 || lb >= 16 {
+            l.label("string operand of 16 or more characters");
+        }
+        check_op(op, &a, &b, None, la + lb < 60, l)
+    });
+    let eq_ops: Vec<usize> = (0..14).filter(|op| matches!(BinOp::ALL[*op].sym(), "==" | "!=")).collect();
+    let sizes = refmodel::gen::SCALE_SIZES;
+    common::enumerate(rep, "wide-tuples", sizes.len() as u64 * 2 * 7 * eq_ops.len() as u64, 16, &|i, l| {
+        let op = eq_ops[(i % eq_ops.len() as u64) as usize];
+        let r = i / eq_ops.len() as u64;
+        let n = sizes[(r % sizes.len() as u64) as usize];
+        let nested = (r / sizes.len() as u64) % 2 == 1;
+        let which = r / (sizes.len() as u64 * 2);
+        let elem = |k: usize, changed: bool| -> RV {
+            let x = if changed { -1 } else { k as i64 };
+            if nested { RV::Tuple(vec![RV::Int(k as i64), RV::Int(x)]) } else { RV::Int(x) }
+        };
+        // position of the one difference (none for which == 0)
+        let diff: Option<usize> = match which {
+            0 => None,
+            1 => Some(0),
+            2 => Some(n / 2),
+            3 => Some(n - 1),
+            4 => Some(15.min(n - 1)),
+            5 => Some(16.min(n - 1)),
+            _ => Some(17.min(n - 1)),
+        };
+        let a = RV::Tuple((0..n).map(|k| elem(k, false)).collect());
+        let mut bv: Vec<RV> = (0..n).map(|k| elem(k, Some(k) == diff)).collect();
+        if which == 6 && nested {
+            // differ in the length of a sub-tuple instead
+            if let Some(d) = diff {
+                bv[d] = RV::Tuple(vec![RV::Int(d as i64)]);
+            }
+        }
+        let b = RV::Tuple(bv);
+        l.label("wide tuple operands");
+        check_op(op, &a, &b, None, false, l)
+    });
     let n_random = rep.tier.pick(2_000_000u64, 120_000_000);
     common::random_search(rep, "random", 30, n_random, &arb_pair, &|(op, a, b): &(usize, RV, RV), l| {
         l.sample(2, || json!(format!("{} {} {}", a, op_symbol(*op), b)));
